@@ -165,6 +165,13 @@ class M:
     def shape(self):
         return self.a.shape
 
+    def __array__(self, dtype=None, copy=None):
+        return self.a if dtype is None else self.a.astype(dtype)
+
+    @property
+    def ndim(self):
+        return 2
+
     @property
     def T(self):
         return M(self.a.T.copy())
